@@ -321,7 +321,11 @@ fn shared_file_modes(ctx: &Ctx, thorough: bool) -> u64 {
                 }
                 let case = || json!({"script": script, "prefix": prefix, "taps": ph.taps, "kind": "shared-file-mode"});
                 if r.panic.is_some() || !matches!(r.end, End::Exited(0)) {
-                    ctx.violation("c08:shared-file-mode-end", &format!("{script}: {:?} {:?} stderr={:?}", r.end, r.panic, r.stderr), case());
+                    // a deadlock here has the cause recorded under C13 (two processes of the shell in
+                    // the middle of a transfer on one open file description; the first to finish makes
+                    // it blocking under the other): a key of its own
+                    let key = if matches!(r.end, End::Deadlock) { "c08:shared-file-mode-deadlock" } else { "c08:shared-file-mode-end" };
+                    ctx.violation(key, &format!("{script}: {:?} {:?} stderr={:?}", r.end, r.panic, r.stderr), case());
                     failed = true;
                     return false;
                 }
